@@ -196,6 +196,18 @@ def gen_cases(rng, tier, wd):
         for cut in [32768 * k + d for k in range(1, blocks + 1) for d in (-1, 0, 1, 5, 20000)]:
             if cut < len(f) - doff:
                 out.append(("blocks-cut", f[:doff + cut], rng.choice(["v", "fd", "dv"]), None))
+    # (c2) the same with the big chunk LAST (the file ends inside the last chunk after whole 32 KiB blocks of it), also under
+    # the uncompressed-source flag (no data checksum behind the chunk verdicts)
+    for blocks, ht, cht, fl in ((2, 1, 1, 0), (2, 1, 1, 4)) if quick else ((2, 1, 1, 0), (2, 1, 1, 4), (3, 0, 2, 0), (3, 2, 2, 4)):
+        x = rng.rbytes(32768)
+        chunks = [b"head" * 5, rng.rbytes(300), x * blocks]
+        f, h = zckfmt.build_file(chunks, ht=ht, cht=cht, flags=fl)
+        doff = len(h.build())
+        out.append(("lastblocks", f, "vdr", b"".join(chunks)))
+        for cut in [320 + 32768 * k + d for k in range(1, blocks + 1) for d in (-1, 0, 1, 5, 20000)]:
+            if cut < len(f) - doff:
+                for ops in ("v", "fd", "f", "dv"):
+                    out.append(("lastblocks-cut", f[:doff + cut], ops, None))
     # (d) crafted index entries
     f, h, doff, ext, data = base_file(rng, 3, 1, 3, 0, 0)
     body = f[doff:]
